@@ -4,7 +4,7 @@
 (* placed instance (record offsets, leaf offsets/widths/kinds/units/roles,     *)
 (* declared values) to the request's "out" path.  The synthesiser and the      *)
 (* oracles get every offset of every field from here, never from /repo.        *)
-EXTENDS FileFormat, Json, IOUtils
+EXTENDS FileFormat, OutMap, Json, IOUtils
 
 
 Req == JsonDeserialize(IOEnv.REQ_FILE)
@@ -18,5 +18,6 @@ Param(r) ==
 
 ASSUME \A i \in 1..Len(Req) : JsonSerialize(Req[i].out, Instance(Req[i].file, Param(Req[i])))
 ASSUME IF "TABLES_FILE" \in DOMAIN IOEnv THEN JsonSerialize(IOEnv.TABLES_FILE, EnumTables) ELSE TRUE
+ASSUME IF "OUTMAP_FILE" \in DOMAIN IOEnv THEN JsonSerialize(IOEnv.OUTMAP_FILE, OutMap) ELSE TRUE
 ASSUME PrintT(<<"EXPORTED", Len(Req)>>)
 =============================================================================
